@@ -23,18 +23,6 @@ open Generated.C06 Finset C06L
 
 /-! ## translated obligations: the Q / shift / sign glue of the propagation backprops -/
 
-/-- `Q_for_sampling` is the rational function of the model -/
-theorem gen_qForSampling (d p w o : Rat) : qForSampling d p w o = Model.C06.qForSampling d p w o := by
-  simp only [qForSampling, Model.C06.qForSampling]
-
-theorem shift_ite (sx sy o : Rat) :
-    (if sx ≠ 0 ∨ sy ≠ 0 then sx / o else sx) = sx / o ∧ (if sx ≠ 0 ∨ sy ≠ 0 then sy / o else sy) = sy / o := by
-  by_cases h : sx ≠ 0 ∨ sy ≠ 0
-  · simp [h]
-  · have hx : sx = 0 := by by_contra hx; exact h (Or.inl hx)
-    have hy : sy = 0 := by by_contra hy; exact h (Or.inr hy)
-    simp [hx, hy]
-
 /-- `focus_fixed_sampling_backprop` hands `dft2_backprop` the forward's per-axis Q, the forward's shift (in output
 samples) and the forward's input shape, for every shape / spacing / shift -/
 theorem gen_ffs_backprop (a0 a1 b0 b1 idx pd wl odx sx sy : Rat) :
@@ -47,18 +35,6 @@ theorem gen_ffs_backprop (a0 a1 b0 b1 idx pd wl odx sx sy : Rat) :
     simp only [ffsBackQy, ffsFwdQy, ffsBackQx, ffsFwdQx, ffsBackShiftX, ffsFwdShiftX, ffsBackShiftY, ffsFwdShiftY,
       ffsBackWired, ffsFwdWired]
 
-/-- the forward's Q and shift are the model's: `Q_a = λ z / (s_a · dx_in · dx_out)`, shift in output samples -/
-theorem gen_ffs_forward (a0 a1 b0 b1 idx pd wl odx sx sy : Rat) :
-    ffsFwdQy a0 a1 b0 b1 idx pd wl odx sx sy = Model.C06.fixedQ a0 idx pd wl odx ∧
-    ffsFwdQx a0 a1 b0 b1 idx pd wl odx sx sy = Model.C06.fixedQ a1 idx pd wl odx ∧
-    ffsFwdShiftX a0 a1 b0 b1 idx pd wl odx sx sy = sx / odx ∧
-    ffsFwdShiftY a0 a1 b0 b1 idx pd wl odx sx sy = sy / odx := by
-  refine ⟨?_, ?_, ?_, ?_⟩
-  · simp only [ffsFwdQy, Model.C06.fixedQ, gen_qForSampling]
-  · simp only [ffsFwdQx, Model.C06.fixedQ, gen_qForSampling]
-  · simp only [ffsFwdShiftX]; exact (shift_ite sx sy odx).1
-  · simp only [ffsFwdShiftY]; exact (shift_ite sx sy odx).2
-
 theorem gen_ufs_backprop (a0 a1 b0 b1 idx pd wl odx sx sy : Rat) :
     ufsBackQy a0 a1 b0 b1 idx pd wl odx sx sy = ufsFwdQy a0 a1 b0 b1 idx pd wl odx sx sy ∧
     ufsBackQx a0 a1 b0 b1 idx pd wl odx sx sy = ufsFwdQx a0 a1 b0 b1 idx pd wl odx sx sy ∧
@@ -68,17 +44,6 @@ theorem gen_ufs_backprop (a0 a1 b0 b1 idx pd wl odx sx sy : Rat) :
   refine ⟨?_, ?_, ?_, ?_, ?_, ?_⟩ <;>
     simp only [ufsBackQy, ufsFwdQy, ufsBackQx, ufsFwdQx, ufsBackShiftX, ufsFwdShiftX, ufsBackShiftY, ufsFwdShiftY,
       ufsBackWired, ufsFwdWired]
-
-theorem gen_ufs_forward (a0 a1 b0 b1 idx pd wl odx sx sy : Rat) :
-    ufsFwdQy a0 a1 b0 b1 idx pd wl odx sx sy = Model.C06.fixedQ a0 idx pd wl odx ∧
-    ufsFwdQx a0 a1 b0 b1 idx pd wl odx sx sy = Model.C06.fixedQ a1 idx pd wl odx ∧
-    ufsFwdShiftX a0 a1 b0 b1 idx pd wl odx sx sy = sx / odx ∧
-    ufsFwdShiftY a0 a1 b0 b1 idx pd wl odx sx sy = sy / odx := by
-  refine ⟨?_, ?_, ?_, ?_⟩
-  · simp only [ufsFwdQy, Model.C06.fixedQ, gen_qForSampling]
-  · simp only [ufsFwdQx, Model.C06.fixedQ, gen_qForSampling]
-  · simp only [ufsFwdShiftX]; exact (shift_ite sx sy odx).1
-  · simp only [ufsFwdShiftY]; exact (shift_ite sx sy odx).2
 
 /-- `to_fpm_and_back_backprop`: both adjoint legs use the Q and the shift of the forward leg they undo
 (any pupil shape `(p0,p1)`, any mask shape `(m0,m1)`, any shift), the result carries no extra sign, and the mask is
@@ -100,26 +65,6 @@ theorem gen_fpm_backprop (p0 p1 m0 m1 dx efl wl fdx sx sy : Rat) :
 theorem gen_fpm_sign_conj :
     fpmBackSign = 1 ∧ fpmBackConjMaskIffComplex = true ∧ fpmBackWired = true ∧ fpmFwdWired = true := by
   decide
-
-/-- the forward legs are the model's: out with `(fixedQ p·, shift/fpm_dx)`, back with `(fixedQ m·, shift/fpm_dx)` -/
-theorem gen_fpm_forward (p0 p1 m0 m1 dx efl wl fdx sx sy : Rat) (hdx : dx ≠ 0) :
-    fpmFwdOutQy p0 p1 m0 m1 dx efl wl fdx sx sy = Model.C06.fixedQ p0 dx efl wl fdx ∧
-    fpmFwdOutQx p0 p1 m0 m1 dx efl wl fdx sx sy = Model.C06.fixedQ p1 dx efl wl fdx ∧
-    fpmFwdRetQy p0 p1 m0 m1 dx efl wl fdx sx sy = Model.C06.fixedQ m0 fdx efl wl dx ∧
-    fpmFwdRetQx p0 p1 m0 m1 dx efl wl fdx sx sy = Model.C06.fixedQ m1 fdx efl wl dx ∧
-    fpmFwdOutShiftX p0 p1 m0 m1 dx efl wl fdx sx sy = sx / fdx ∧
-    fpmFwdOutShiftY p0 p1 m0 m1 dx efl wl fdx sx sy = sy / fdx ∧
-    fpmFwdRetShiftX p0 p1 m0 m1 dx efl wl fdx sx sy = sx / fdx ∧
-    fpmFwdRetShiftY p0 p1 m0 m1 dx efl wl fdx sx sy = sy / fdx := by
-  refine ⟨?_, ?_, ?_, ?_, ?_, ?_, ?_, ?_⟩
-  · simp only [fpmFwdOutQy, Model.C06.fixedQ, gen_qForSampling]
-  · simp only [fpmFwdOutQx, Model.C06.fixedQ, gen_qForSampling]
-  · simp only [fpmFwdRetQy, Model.C06.fixedQ, gen_qForSampling]
-  · simp only [fpmFwdRetQx, Model.C06.fixedQ, gen_qForSampling]
-  · simp only [fpmFwdOutShiftX]; exact (shift_ite sx sy fdx).1
-  · simp only [fpmFwdOutShiftY]; exact (shift_ite sx sy fdx).2
-  · simp only [fpmFwdRetShiftX]; rw [(shift_ite (sx * dx / fdx) (sy * dx / fdx) dx).1]; field_simp
-  · simp only [fpmFwdRetShiftY]; rw [(shift_ite (sx * dx / fdx) (sy * dx / fdx) dx).2]; field_simp
 
 /-- `babinet_backprop` returns `cbar − B(cbar)` with `cbar = conj(L)·ȳ` and the same `1 − fpm` mask as the forward -/
 theorem gen_babinet :
